@@ -142,6 +142,40 @@ Theorem C13_skipped_repack_refuted : forall H sel tys static_ok (x : AB) d',
   accept_call_gen H sel tys static_ok (fun _ => true) x = Some x /\ ~ is_canonical sel tys (ab_data (body x)).
 Proof. exact skipped_repack_refuted. Qed.
 
+(* the padding of dynamic values is part of canonicity: canonical call data are selector, head words and then the
+   tails in argument order, and the tail of every string / bytes argument is its length word, its content and ZEROS
+   up to the next word boundary (the decoder never reads those bytes; only the re-pack pins them) *)
+Theorem C13_canonical_dyn_padding_zero : forall sel tys input,
+  tys <> [] -> is_canonical sel tys input ->
+  exists vs items heads,
+    unpack_method sel tys input = UOk vs /\ pack_items tys vs = Some items /\
+    input = sel ++ heads ++ tails_of items /\
+    forall i t v it, nth_error tys i = Some t -> nth_error vs i = Some v -> nth_error items i = Some it -> padded_item t v it.
+Proof. exact canonical_dyn_padding_zero. Qed.
+
+(* ... and so it holds for the stored call data of every accepted call *)
+Theorem C13_accepted_call_padding_zero : forall (H : bytes -> bytes), (forall x, length (H x) = 32%nat) ->
+  forall sel tys static_ok (x s : AB),
+  tys <> [] -> ab_wf x ->
+  accept_call H sel tys static_ok x = Some s ->
+  (H (ab_preimage H x) = H (ab_preimage H s) -> ab_preimage H x = ab_preimage H s) ->
+  (H (ab_data (body x)) = H (ab_data (body s)) -> ab_data (body x) = ab_data (body s)) ->
+  exists vs items heads,
+    unpack_method sel tys (ab_data (body s)) = UOk vs /\ pack_items tys vs = Some items /\
+    ab_data (body s) = sel ++ heads ++ tails_of items /\
+    forall i t v it, nth_error tys i = Some t -> nth_error vs i = Some v -> nth_error items i = Some it -> padded_item t v it.
+Proof. exact accepted_call_padding_zero. Qed.
+
+(* the call shape of htlc.Unlock(hash id, bytes preimage), every byte written out *)
+Theorem C13_canonical_unlock_shape : forall sel input,
+  is_canonical sel [THash; TBytes] input ->
+  exists id pre, input = sel ++ lpad32 id ++ word256 64 ++ word256 (len pre) ++ pre ++ repeat 0 (Z.to_nat (pad_len pre)).
+Proof. exact canonical_unlock_shape. Qed.
+
+(* the number of padding bytes: fewer than a word, and content + padding ends on a word boundary *)
+Theorem C13_pad_len : forall c, 0 <= pad_len c < 32 /\ (len c + pad_len c) mod 32 = 0.
+Proof. intros c. split; [apply pad_len_range | apply pad_len_fills]. Qed.
+
 (* ---- non-vacuity *)
 Example C13_shape_example : pb_ok ex_block.
 Proof. exact ex_block_ok. Qed.
@@ -173,6 +207,25 @@ Example C13_call_example :
   repack ex_sel ex_tys (ex_sel ++ ex_shared) = Some (ex_sel ++ ex_canon) /\
   accept_call ex_Hsum ex_sel ex_tys (fun _ => true) (ex_call ex_shared) = None /\
   accept_call_gen ex_Hsum ex_sel ex_tys (fun _ => true) (fun _ => true) (ex_call ex_shared) = Some (ex_call ex_shared).
+Proof. vm_compute. repeat split; reflexivity. Qed.
+(* htlc.Unlock-shaped call (hash, bytes) with a 3-byte preimage: the encoding whose 29 padding bytes are not zero
+   decodes to the same values, is not canonical, is refused by the acceptance with the re-pack and accepted (stored
+   as delivered) by an acceptance whose re-pack reproduces the delivered bytes - which is what a packer does that
+   takes the padding from the memory behind the decoded value (dyn_tail_with): same length, other bytes *)
+Definition ex_utys : list ty := [THash; TBytes].
+Definition ex_uhead : bytes := repeat 5 32 ++ word256 64 ++ word256 3 ++ [9; 8; 7].
+Definition ex_ucanon : bytes := ex_uhead ++ repeat 0 29.
+Definition ex_udirty : bytes := ex_uhead ++ 1 :: repeat 0 27 ++ [255].
+Example C13_padding_example :
+  unpack_values ex_utys ex_udirty = unpack_values ex_utys ex_ucanon /\
+  repack ex_sel ex_utys (ex_sel ++ ex_udirty) = Some (ex_sel ++ ex_ucanon) /\
+  accept_call ex_Hsum ex_sel ex_utys (fun _ => true) (ex_call ex_ucanon) = Some (ex_call ex_ucanon) /\
+  hash_ok ex_Hsum (ex_call ex_udirty) = true /\
+  accept_call ex_Hsum ex_sel ex_utys (fun _ => true) (ex_call ex_udirty) = None /\
+  accept_call_gen ex_Hsum ex_sel ex_utys (fun _ => true) (fun _ => true) (ex_call ex_udirty) = Some (ex_call ex_udirty) /\
+  word256 64 ++ dyn_tail [9; 8; 7] = skipn 32 ex_ucanon /\
+  word256 64 ++ dyn_tail_with (fun _ => 1 :: repeat 0 27 ++ [255]) [9; 8; 7] = skipn 32 ex_udirty /\
+  length (dyn_tail_with (fun _ => 1 :: repeat 0 27 ++ [255]) [9; 8; 7]) = length (dyn_tail [9; 8; 7]).
 Proof. vm_compute. repeat split; reflexivity. Qed.
 (* a forged descendant (7777 instead of 50, Hash field kept) passes the pre-fix acceptance and is refused by the
    fixed one, while the regenerated block itself is accepted *)
